@@ -87,8 +87,10 @@ func genRoArchive(r *RNG, c *Ctx, big bool) roArchive {
 	// same CID, different data (nothing on the read-only path hashes): exercises "a section carrying the key"
 	if len(blks) > 0 && r.Chance(8) {
 		b := pick(r, blks)
-		blks = append(blks, Blk{b.Cid, r.Bytes(r.Intn(20))})
-		c.Count("archive:same-cid-other-data")
+		if b.Cid.Prefix().MhType != mh.IDENTITY { // an identity CID fixes its data
+			blks = append(blks, Blk{b.Cid, r.Bytes(r.Intn(20))})
+			c.Count("archive:same-cid-other-data")
+		}
 	}
 	roots := genRoots(r, blks, true)
 	a := roArchive{roots: roots, blks: blks}
